@@ -265,7 +265,7 @@ PROPS = {
     "C04": {"level": "exploration", "streams": ["runtime:run_c04"], "trusted_base": TB_CORR,
             "stream_names": ["buffer", "alias", "parse", "setters", "histories", "canparse", "encodings", "ipv4", "ipv6", "percent", "urlenc", "usp", "host", "filepath"]},
     "C18": {"level": "translation_validation", "streams": ["runtime:run_c18"], "trusted_base": TB_CORR,
-            "stream_names": ["parse", "reparse", "setters", "histories", "canparse", "encodings", "ipv4", "ipv6", "percent", "urlenc", "usp", "host", "filepath"]},
+            "stream_names": ["fmt", "parse", "reparse", "setters", "histories", "canparse", "encodings", "ipv4", "ipv6", "percent", "urlenc", "usp", "host", "filepath"]},
     "C19": {"level": "exploration", "streams": ["runtime:run_c19"], "proof_search": None,
             "trusted_base": TB_CORR + ["translator T3 (harness/t3_shared.py: clang++ 14 JSON AST of src/*.cpp, nm cross-check) and the model simplifications S1-S8 of docs/T3_NOTES.md; ICU's documented thread-safety of a shared const UIDNA*"],
             "stream_names": ["parse", "setters", "histories", "host", "usp", "percent", "filepath"]},
